@@ -859,6 +859,13 @@ func (eval Evaluator) mulRelin(op0 *rlwe.Ciphertext, op1 *rlwe.Element[ring.Poly
 			tmpCt.IsNTT = true
 
 			eval.GadgetProduct(level, c2, &rlk.GadgetCiphertext, tmpCt)
+
+			// The key switch is defined up to the level of its key: above it nothing was computed
+			// (the buffers hold whatever they held), the result is at the level of the key.
+			if lvl := rlk.LevelQ(); lvl < level {
+				ringQ = ringQ.AtLevel(lvl)
+				opOut.Resize(opOut.Degree(), lvl)
+			}
 			ringQ.Add(c0, tmpCt.Value[0], opOut.Value[0])
 			ringQ.Add(c1, tmpCt.Value[1], opOut.Value[1])
 		}
@@ -1166,6 +1173,13 @@ func (eval Evaluator) mulRelinThenAdd(op0 *rlwe.Ciphertext, op1 *rlwe.Element[ri
 			tmpCt.IsNTT = true
 
 			eval.GadgetProduct(level, c2, &rlk.GadgetCiphertext, tmpCt)
+
+			// The key switch is defined up to the level of its key: above it nothing was computed
+			// (the buffers hold whatever they held), the result is at the level of the key.
+			if lvl := rlk.LevelQ(); lvl < level {
+				ringQ = ringQ.AtLevel(lvl)
+				opOut.Resize(opOut.Degree(), lvl)
+			}
 			ringQ.Add(c0, tmpCt.Value[0], c0)
 			ringQ.Add(c1, tmpCt.Value[1], c1)
 		} else {
